@@ -90,6 +90,9 @@ def gen_decl(i, d, group):
     if kind == "oneway":
         attrs.append("oneway")
     attr_line = f"        #[zlink({', '.join(attrs)})]\n" if attrs else ""
+    if i % 3 == 0:
+        # other attributes in front of (and behind) the macro's own one
+        attr_line = "        /// Documented: the first line.\n        /// The second line.\n" + attr_line + "        #[allow(clippy::too_many_arguments)]\n"
     if kind == "oneway":
         ret = "zlink_core::Result<()>"
     elif kind == "more":
